@@ -227,7 +227,7 @@ pub fn fuzz_image(data: &[u8]) {
 
 /// seed corpora for the four targets (small valid inputs; committed under /verif/fuzz/corpus)
 pub fn gen_corpus() {
-    let dir = format!("{}/fuzz/corpus", run::VERIF_DIR);
+    let dir = format!("{}/fuzz/corpus", run::verif_dir());
     let w = |t: &str, name: &str, data: &[u8]| {
         let d = format!("{}/{}", dir, t);
         let _ = std::fs::create_dir_all(&d);
